@@ -63,6 +63,12 @@ def union_specs(tier):
             dict(kind='nautilus-outer', family='two', d=2, lattice=64),
             dict(kind='nautilus-outer', family='wrapped', d=2, lattice=64),
         ]
+    # a union with >= 11 members after a checkpoint round trip (two-digit member indices)
+    specs.append(dict(family='banana', d=2, n=200, member='Ellipsoid', unit=True, enlarge=1.3,
+                      splits=14, lattice=40 if tier == 'quick' else 64, roundtrip=True,
+                      min_members=11))
+    if tier == 'thorough':
+        pass
     else:
         specs += [dict(family='banana', d=2, n=60, member='Ellipsoid', unit=True, enlarge=1.4,
                        splits=3, lattice=32, roundtrip=True),
@@ -85,6 +91,9 @@ def build_union(sp):
                       unit=sp['unit'], bound_class=cls, rng=np.random.default_rng(11 + sp['seed']))
     for _ in range(sp['splits']):
         u.split()
+    if len(u.bounds) < sp.get('min_members', 1):
+        raise Inconclusive('union has only {} members, {} wanted'.format(len(u.bounds),
+                                                                        sp['min_members']))
     if sp.get('roundtrip'):
         u = B.h5_roundtrip(u, np.random.default_rng(3))
     return u, sp['unit']
